@@ -149,6 +149,7 @@ Proof. repeat split; vm_compute; reflexivity. Qed.
 (* the statement of Properties/C16.v *)
 Lemma repetition_is_iteration :
   src_rep_sites = model_rep_sites /\
+  map (fun r => nonzero (fst (snd r))) model_counts_shared = [[]; []] /\
   src_recursive = ["ConstValue::parse"; "Ty::parse"; "Type::parse"] /\
   model_depth_users = ["ConstValue::parse"; "Ty::parse"] /\
   (forall lf df i, p_ty lf 0 i = PFuel FDepth /\ p_const_value lf 0 i = PFuel FDepth /\ p_type lf df = p_type_of lf (p_ty lf df)) /\
@@ -158,6 +159,6 @@ Lemma repetition_is_iteration :
      many0 0 p i = PFuel FLoop /\ many1_loop 0 p i = PFuel FLoop /\ many0_count 0 p i = PFuel FLoop /\
      many_till 0 p q i = PFuel FLoop /\ sep_loop 0 q p i = PFuel FLoop /\ escaped_loop 0 p c q i i = PFuel FLoop).
 Proof.
-  pose proof rep_sites_agree as (H1 & _ & H3 & H4 & H5 & H6).
-  exact (conj H1 (conj H3 (conj H4 (conj depth_fuel_sites (conj H5 (conj H6 comb_loops_use_loop_fuel)))))).
+  pose proof rep_sites_agree as (H1 & H2 & H3 & H4 & H5 & H6).
+  exact (conj H1 (conj H2 (conj H3 (conj H4 (conj depth_fuel_sites (conj H5 (conj H6 comb_loops_use_loop_fuel))))))).
 Qed.
